@@ -965,8 +965,13 @@ class Router:
         # Step 2: look up DE PV from LocT
         de_entry = self.location_table.get_entry(
             request.destination) if request.destination else None
-        if de_entry is None or de_entry.ls_pending is True:
-            # No LocTE for destination, or its lookup is still in progress
+        if (
+            de_entry is None
+            or de_entry.ls_pending is True
+            or de_entry.position_vector_received is False
+        ):
+            # No LocTE for destination, its lookup is still in progress, or only the empty
+            # placeholder of an abandoned lookup is left
             # → invoke Location Service / queue behind it (§10.3.7.1.2)
             assert request.destination is not None
             self.gn_ls_request(request.destination, request)
